@@ -17,8 +17,8 @@ from harness import common as C
 from harness import probes
 
 PROP = "C06"
-TARGETS = ["IbicusModel.Props.C06Inst"]
-GEN = ["Windows", "Debiasers", "PrecipFit"]
+TARGETS = ["IbicusModel.Props.C06Inst", "IbicusModel.Props.C06Detrend", "IbicusModel.Lemmas.GenLoops"]
+GEN = ["Windows", "Debiasers", "PrecipFit", "Loops"]
 
 PERM_KINDS = ["full", "blockswap", "rotate", "reverse", "identity"]
 PR_THR = 0.0000011574  # lower threshold of ISIMIP's pr settings
@@ -52,6 +52,103 @@ def pick_kinds(rng):
     if rng.random() < 0.25:
         kinds[2] = "blockswap"
     return kinds
+
+
+# ------------------------------------------------------------------ tier B: ISIMIP apply_location with detrending, years in separate arrays
+def correspondence_location_detrending(rng, n_cases, tier, res, shuffle_prob=0.7):
+    """the real `ISIMIP.apply_location` with `detrending=True` (running-window and month mode), mostly on NON-chronological
+    storage, against `Model.Isimip.applyLocationRW/Months` with the separate year lists (driver op `applylocorc`).  This ties
+    what `Props/C06Detrend.lean` is about — the look-up of each window sample's years in the full-series year arrays by the
+    window's index list (`Model.Isimip.winFn`), steps 3 / 7 inside the loop — to the code.  The `linregress` decisions are
+    recorded per window from the real run and handed to the model keyed by the window (they are model parameters)."""
+    from fractions import Fraction
+
+    from harness import isimip_corr as IC
+    from harness import isimip_family
+    from ibicus.debias import ISIMIP
+    from ibicus.utils import day_of_year, month, year
+
+    exps = []
+    for k in range(n_cases):
+        rw = bool(k % 2)
+        S = rng.choice([15, 31, 45])
+        L = S + rng.choice([0, 10, 30])
+        kw = dict(trend_preservation_method="additive", nonparametric_qm=bool(rng.random() < 0.4), detrending=True,
+                  detrending_with_significance_test=bool(rng.random() < 0.85), ks_test_for_goodness_of_cdf_fit=False,
+                  scale_by_annual_cycle_of_upper_bounds=False,
+                  running_window_mode=rw, running_window_length=L, running_window_step_length=S)
+        with warnings.catch_warnings():
+            warnings.simplefilter("ignore")
+            deb = ISIMIP(distribution=isimip_family.IsiRatSigmoid(), **kw)
+        ts, xs = [], []
+        for _ in range(3):
+            ny = rng.choice([3, 4, 5, 6])
+            start = datetime.date(rng.randint(1960, 2080), 1, 1)
+            stride = rng.choice([3, 4, 5]) if rw else rng.choice([5, 7, 9])
+            t = np.array([start + datetime.timedelta(days=j) for j in range(0, 365 * ny + 1, stride)], dtype=object)
+            base = rng.randint(100, 20000)
+            slope = rng.choice([0, rng.randint(-400, 400), rng.randint(-3000, 3000)])  # per year, in 1/64: none / weak / strong trend
+            uniq = list(range(t.size))  # distinct low-order digits: tie-free series (ties are what step 6's ranking cannot order)
+            rng.shuffle(uniq)
+            x = np.array([(base + slope * (d.year - start.year) + rng.randint(-640, 640)
+                           + int(300 * np.cos(2 * np.pi * d.timetuple().tm_yday / 365.25))) * 1024 + u for d, u in zip(t, uniq)], dtype=float) / 65536
+            if rng.random() < shuffle_prob:  # non-chronological storage (values permuted with their dates)
+                perm = np.random.RandomState(rng.randint(0, 2**31 - 1)).permutation(t.size)
+                t, x = t[perm], x[perm]
+            ts.append(t)
+            xs.append(x)
+        with IC.Spy() as spy:
+            try:
+                out, exc = deb.apply_location(xs[0].copy(), xs[1].copy(), xs[2].copy(), ts[0], ts[1], ts[2]), None
+            except Exception as ex:  # noqa: BLE001
+                out, exc = None, type(ex).__name__
+        with warnings.catch_warnings():
+            warnings.simplefilter("ignore")
+            doy = [np.asarray(day_of_year(t), dtype=int) for t in ts]
+            mon = [np.asarray(month(t), dtype=int) for t in ts]
+            yrs = [np.asarray(year(t), dtype=int) for t in ts]
+        case = {"config": "apply_location+detrending", "k": k, "mode": "rw" if rw else "months", "L": L, "S": S,
+                "sizes": [int(x.size) for x in xs], "npqm": kw["nonparametric_qm"], "sigtest": kw["detrending_with_significance_test"]}
+        if exc is not None or len(spy.sig) % 3 != 0 or not spy.sig or spy.uniform or spy.random or spy.ks:
+            res.extra["applylocorc_skipped"] = res.extra.get("applylocorc_skipped", 0) + 1
+            continue
+        bits = ",".join("".join("1" if b else "0" for b in spy.sig[j:j + 3]) + "1" for j in range(0, len(spy.sig), 3))
+        Ln = deb.running_window.window_length_in_days if rw else 1
+        Sn = deb.running_window.window_step_length_in_days if rw else 1
+        line = (f"applylocorc {'rw' if rw else 'months'} {IC.cfg_token(deb)} {bits} {Ln} {Sn} " + " ".join(C.ilist(d) for d in doy) + " "
+                + " ".join(C.ilist(m) for m in mon) + " " + " ".join(C.ilist(y) for y in yrs) + " " + " ".join(IC.rl(x) for x in xs))
+        case["windows"] = len(spy.sig) // 3
+        case["significant"] = int(sum(spy.sig))
+        exps.append(IC.Expect("applylocorc", line, case, out=out, inputs=xs, pyflags=set(spy.flags)))
+        res.count(("applylocorc", rw, L, S, kw["nonparametric_qm"], kw["detrending_with_significance_test"], any(spy.sig)), True,
+                  sample=case if k < 2 else None)
+    if not exps:
+        return []
+    try:
+        out = C.run_driver("DrvIsimip", [e.line for e in exps])
+    except C.DriverError as ex:
+        return [{"op": "driver", "case": {}, "detail": str(ex)[:600]}]
+    mismatches = []
+    hist = res.extra.setdefault("branch_hist", {})
+    for e, got in zip(exps, out):
+        res.cov["traces_validated_against_impl"] += 1
+        toks = got.split(" ")
+        if toks[0] != "ok":
+            ok, detail = False, f"applylocorc: impl ok, model {got[:80]}"
+        else:
+            model = [float("nan") if t == "none" else float(Fraction(t)) for t in toks[1].split(",")] if toks[1] != "-" else []
+            real = [float(v) for v in e.out]
+            ok = IC.close(model, real, IC.scale_of(*e.inputs, [v for v in real if v == v]))
+            detail = f"applylocorc: {IC.worst(model, real)}"
+        flags = set(e.pyflags) | (set(toks[2].split(",")) if toks[0] == "ok" and len(toks) > 2 and toks[2] != "-" else set())
+        status = "ok" if ok else ("tie" if flags else "mismatch")
+        key = f"applylocorc:{e.case['mode']}:{status}"
+        hist[key] = hist.get(key, 0) + 1
+        if status == "tie":
+            res.extra["ties_accepted"] = res.extra.get("ties_accepted", 0) + 1
+        elif status == "mismatch":
+            mismatches.append({"op": "applylocorc", "case": e.case, "detail": detail[:500], "line": e.line[:2000]})
+    return mismatches
 
 
 # ------------------------------------------------------------------ tier B: skeletons on shuffled dated series
@@ -626,7 +723,7 @@ def _run(tier, res, force_search=False):
     if tier != "quick" and lean_ok:  # thorough: re-check the compiled declarations with the external kernel
         import fcntl
 
-        mods = ["IbicusModel.Props.C06Inst", "IbicusModel.Props.C06", "IbicusModel.Lemmas.C06Stats", "IbicusModel.Lemmas.C06Rank",
+        mods = ["IbicusModel.Props.C06Inst", "IbicusModel.Props.C06Detrend", "IbicusModel.Lemmas.C06Dated", "IbicusModel.Props.C06", "IbicusModel.Lemmas.C06Stats", "IbicusModel.Lemmas.C06Rank",
                 "IbicusModel.Lemmas.C06Years", "IbicusModel.Lemmas.C06Except", "IbicusModel.Lemmas.C06Isimip",
                 "IbicusModel.Lemmas.C06Months", "IbicusModel.Lemmas.C06Detrend", "IbicusModel.Lemmas.C06Step4", "IbicusModel.Lemmas.C06Window",
                 "IbicusModel.Lemmas.C06Centre", "IbicusModel.Lemmas.C06MonthsC", "IbicusModel.Lemmas.C06Cycle", "IbicusModel.Lemmas.GenPrecipFit"]
@@ -669,6 +766,8 @@ def _run(tier, res, force_search=False):
         # step 1 / step 8 and the whole apply_location (step 1 -> window loop -> step 8), mostly on NON-chronological storage
         mm2 += isimip_corr.correspondence_aux(rng, 10 if tier == "quick" else 80, tier, res, shuffle_prob=0.7)
         mm2 += isimip_corr.correspondence_location(rng, 6 if tier == "quick" else 40, tier, res, shuffle_prob=0.7)
+        # … and with detrending=True: the years of each window sample looked up in the separate year arrays (Props/C06Detrend.lean)
+        mm2 += correspondence_location_detrending(rng, 4 if tier == "quick" else 24, tier, res, shuffle_prob=0.7)
         if mm2:
             res.tie_broken.append(f"correspondence DrvIsimip: {len(mm2)} mismatches, first: {str(mm2[0])[:600]}")
     except Exception as ex:  # noqa: BLE001
